@@ -16,30 +16,42 @@ use aldrin_core::introspection::LexicalId;
 use aldrin_core::TypeId;
 use std::collections::BTreeMap;
 
-pub struct Universe<'a> {
-    /// "schema::Name" -> (schema, definition)
-    pub defs: BTreeMap<String, (&'a str, &'a Def)>,
+pub struct Universe {
+    /// "schema::Name" -> (schema, definition); inline types of services appear under the names
+    /// the language gives them
+    pub defs: BTreeMap<String, (String, Def)>,
     pub consts: BTreeMap<String, u32>,
+    /// "schema::Name" of every service
+    pub services: Vec<String>,
 }
 
-impl<'a> Universe<'a> {
-    pub fn new(corpus: &'a [CorpusSchema]) -> Self {
+impl Universe {
+    pub fn new(corpus: &[CorpusSchema]) -> Self {
         let mut defs = BTreeMap::new();
         let mut consts = BTreeMap::new();
+        let mut services = Vec::new();
         for cs in corpus {
             for d in &cs.schema.defs {
                 if let Def::Const { name, val: crate::gen::ConstVal::Int(_, v), .. } = d {
                     consts.insert(format!("{}::{}", cs.name, name), v.parse().unwrap_or(0));
                 }
-                defs.insert(format!("{}::{}", cs.name, d.name()), (cs.name.as_str(), d));
+                defs.insert(format!("{}::{}", cs.name, d.name()), (cs.name.clone(), d.clone()));
+                if let Def::Service(sv) = d {
+                    services.push(format!("{}::{}", cs.name, sv.name));
+                    for (n, x) in corpus::inline_types(sv) {
+                        if let Some(def) = corpus::inline_as_def(&n, &x) {
+                            defs.insert(format!("{}::{}", cs.name, n), (cs.name.clone(), def));
+                        }
+                    }
+                }
             }
         }
-        Self { defs, consts }
+        Self { defs, consts, services }
     }
 }
 
-struct Builder<'u, 'a> {
-    u: &'u Universe<'a>,
+struct Builder<'u> {
+    u: &'u Universe,
     nodes: Vec<Option<RawEntry>>,
     lex: Vec<LexicalId>,
     by_key: BTreeMap<String, usize>,
@@ -70,7 +82,7 @@ fn leaf(p: &str) -> Option<(BuiltInTypeIr, LexicalId)> {
     })
 }
 
-impl Builder<'_, '_> {
+impl Builder<'_> {
     fn alloc(&mut self, key: String, lex: LexicalId) -> usize {
         let i = self.nodes.len();
         if i >= SLOTS {
@@ -142,13 +154,75 @@ impl Builder<'_, '_> {
         }
     }
 
+    /// Slot of the service "schema::Name": the direct translation of the schema's service into
+    /// ServiceIr (function / event ids and names, args / ok / err / event types by lexical id —
+    /// inline types under their generated names —, fallbacks by name, uuid, version).
+    fn service(&mut self, full: &str, schema: &str, sv: &crate::gen::Service) -> usize {
+        use aldrin_core::introspection::ir::{EventFallbackIr, EventIr, FunctionFallbackIr, FunctionIr, ServiceIr};
+        let key = format!("def|{full}");
+        let i = self.alloc(key, LexicalId::service(schema, sv.name.as_str()));
+        let mut refs = Vec::new();
+        let uuid = aldrin_core::ServiceUuid(uuid::Uuid::parse_str(&sv.uuid).unwrap_or_else(|e| mcx::machinery(format!("bad uuid {}: {e}", sv.uuid))));
+        let mut b = ServiceIr::builder(schema, sv.name.as_str(), uuid, sv.version.parse().unwrap_or(0));
+        let inline: BTreeMap<String, crate::gen::TyOrInline> = corpus::inline_types(sv).into_iter().collect();
+        let mut slot_of = |this: &mut Self, name: String, x: &crate::gen::TyOrInline| -> usize {
+            match x {
+                crate::gen::TyOrInline::Ty(t) => this.ty(schema, t),
+                _ => this.def(&format!("{schema}::{name}")),
+            }
+        };
+        for it in &sv.items {
+            match it {
+                crate::gen::Item::Fn(f) => {
+                    let mut fb = FunctionIr::builder(f.id.parse().unwrap(), f.name.as_str());
+                    for suffix in ["Args", "Ok", "Error"] {
+                        let n = format!("{}{}{}", sv.name, corpus::camel(&f.name), suffix);
+                        if let Some(x) = inline.get(&n) {
+                            let t = slot_of(self, n, x);
+                            refs.push(t);
+                            let l = self.lex[t];
+                            fb = match suffix {
+                                "Args" => fb.args(l),
+                                "Ok" => fb.ok(l),
+                                _ => fb.err(l),
+                            };
+                        }
+                    }
+                    b = b.function(fb.finish());
+                }
+                crate::gen::Item::Ev(e) => {
+                    let mut eb = EventIr::builder(e.id.parse().unwrap(), e.name.as_str());
+                    let n = format!("{}{}Args", sv.name, corpus::camel(&e.name));
+                    if let Some(x) = inline.get(&n) {
+                        let t = slot_of(self, n, x);
+                        refs.push(t);
+                        eb = eb.event_type(self.lex[t]);
+                    }
+                    b = b.event(eb.finish());
+                }
+            }
+        }
+        if let Some(f) = &sv.fn_fb {
+            b = b.function_fallback(FunctionFallbackIr::builder(f.name.as_str()).finish());
+        }
+        if let Some(f) = &sv.ev_fb {
+            b = b.event_fallback(EventFallbackIr::builder(f.name.as_str()).finish());
+        }
+        self.nodes[i] = Some(RawEntry { layout: b.finish().into(), refs });
+        i
+    }
+
     /// Slot of the user type "schema::Name".
     fn def(&mut self, full: &str) -> usize {
         let key = format!("def|{full}");
         if let Some(i) = self.by_key.get(&key) {
             return *i;
         }
-        let (schema, def) = *self.u.defs.get(full).unwrap_or_else(|| mcx::machinery(format!("unknown type {full}")));
+        let (schema, def) = self.u.defs.get(full).unwrap_or_else(|| mcx::machinery(format!("unknown type {full}")));
+        let (schema, def) = (schema.as_str(), def);
+        if let Def::Service(sv) = def {
+            return self.service(full, schema, sv);
+        }
         let i = self.alloc(key, LexicalId::custom(schema, def.name()));
         let mut refs = Vec::new();
         let layout: LayoutIr = match def {
@@ -203,16 +277,8 @@ pub fn hand_id(u: &Universe, full: &str) -> Result<TypeId, String> {
     })
 }
 
-pub fn data_types(corpus: &[CorpusSchema]) -> Vec<String> {
-    let mut v = Vec::new();
-    for cs in corpus {
-        for d in &cs.schema.defs {
-            if matches!(d, Def::Struct { .. } | Def::Enum { .. } | Def::Newtype { .. }) {
-                v.push(format!("{}::{}", cs.name, d.name()));
-            }
-        }
-    }
-    v
+pub fn data_types(u: &Universe) -> Vec<String> {
+    u.defs.iter().filter(|(_, (_, d))| matches!(d, Def::Struct { .. } | Def::Enum { .. } | Def::Newtype { .. })).map(|(k, _)| k.clone()).collect()
 }
 
 #[allow(dead_code)]
